@@ -84,6 +84,12 @@ func tatPullOpts(e *env) []resource.ReadOption {
 }
 
 func resWriteOpts(e *env, cur func() proto.Message) []resource.WriteOption {
+	return resWriteOptsH(e, cur, false)
+}
+
+// isHeld: the written message is one the library handed out; InterceptBefore is documented to edit the written
+// message, so it is only used with the caller's own fresh messages
+func resWriteOptsH(e *env, cur func() proto.Message, isHeld bool) []resource.WriteOption {
 	var opts []resource.WriteOption
 	if e.flip(40) {
 		opts = append(opts, resource.WithUpdateMask(tatMask(e)))
@@ -91,7 +97,7 @@ func resWriteOpts(e *env, cur func() proto.Message) []resource.WriteOption {
 	if e.flip(15) {
 		opts = append(opts, resource.WithWriteTime(time.Unix(int64(e.r.Intn(1000)), 0)))
 	}
-	if e.flip(25) {
+	if e.flip(25) && !isHeld {
 		opts = append(opts, resource.InterceptBefore(goodBefore))
 	}
 	if e.flip(25) {
@@ -140,16 +146,14 @@ func init() {
 				ops: []op{
 					{name: "Get", ro: true, run: func(e *env) error { e.out("result", v.Get(tatReadOpts(e)...)); return nil }},
 					{name: "Set", run: func(e *env) error {
-						m := mkTat(e)
-						e.in(m)
-						res, err := v.Set(m, resWriteOpts(e, cur)...)
+						m, isHeld := written(e, mkTat)
+						res, err := v.Set(m, resWriteOptsH(e, cur, isHeld)...)
 						e.out("result", res)
 						return err
 					}},
 					{name: "Set", run: func(e *env) error {
-						m := mkTat(e)
-						e.in(m)
-						res, err := v.Set(m, resWriteOpts(e, cur)...)
+						m, isHeld := written(e, mkTat)
+						res, err := v.Set(m, resWriteOptsH(e, cur, isHeld)...)
 						e.out("result", res)
 						return err
 					}},
@@ -181,11 +185,10 @@ func init() {
 			}
 			write := func(name string, f func(e *env, id string, m *tat, opts []resource.WriteOption) (proto.Message, error), genID bool) op {
 				return op{name: name, run: func(e *env) error {
-					m := mkTat(e)
-					e.in(m)
+					m, isHeld := written(e, mkTat)
 					i := id(e)
-					o := resWriteOpts(e, func() proto.Message { x, _ := c.Get(i); return x })
-					if genID && e.flip(40) {
+					o := resWriteOptsH(e, func() proto.Message { x, _ := c.Get(i); return x }, isHeld)
+					if genID && e.flip(40) && !isHeld {
 						i = ""
 						o = append(o, resource.WithGenIDIfAbsent(), resource.WithIDCallback(func(id string) { m.DefaultString = id }))
 					}
@@ -253,5 +256,106 @@ func init() {
 					}},
 					cancelOp("Pull"),
 				}}
+		}})
+}
+
+// pair: two resources fed from one another, the way models do it (the active mode is set from the modes collection):
+// a Collection A, a Value B that may have writable fields, a plain Value C.  The message written to one resource is
+// what a read of another one returned - without a read mask that is the stored message of the other resource itself -
+// with update masks, writable fields and reset masks on the write (Isolation.tla WriteOther).
+func init() {
+	register(target{name: "pair", pkg: "resource", typ: reflect.TypeOf(&resource.Value{}),
+		notOps: []string{"Clock", "Get", "Pull", "Set"},
+		build: func(e *env) *instance {
+			var aopts, bopts []resource.Option
+			for _, id := range e.initialIDs() {
+				aopts = append(aopts, resource.WithInitialRecord(id, mkTat(e)))
+			}
+			if e.flip(30) {
+				aopts = append(aopts, resource.WithWritablePaths(&tat{}, "default_int32", "default_string", "default_nested_message.a",
+					"repeated_nested_message", "default_bytes", "map_string_nested_message"))
+			}
+			if e.flip(70) {
+				bopts = append(bopts, resource.WithWritablePaths(&tat{}, "default_int32", "default_string", "default_nested_message.a",
+					"default_foreign_message", "repeated_string", "map_string_string", "oneof_default_nested_message"))
+			}
+			if e.present {
+				bopts = append(bopts, resource.WithInitialValue(mkTat(e)))
+			}
+			a := resource.NewCollection(aopts...)
+			b := resource.NewValue(bopts...)
+			c := resource.NewValue(resource.WithInitialValue(mkTat(e)))
+			id := func(e *env) string { return e.pick("a", "b", "c") }
+			wopts := func(e *env) []resource.WriteOption {
+				var o []resource.WriteOption
+				if e.flip(60) {
+					o = append(o, resource.WithUpdateMask(tatMask(e)))
+				}
+				if e.flip(15) {
+					o = append(o, resource.WithResetPaths("default_bool", "default_nested_message"))
+				}
+				if e.flip(20) {
+					o = append(o, resource.InterceptAfter(goodAfter))
+				}
+				return o
+			}
+			vals := map[string]*resource.Value{"B": b, "C": c}
+			var ops []op
+			for _, from := range []string{"A", "B", "C"} {
+				for _, to := range []string{"A", "B", "C"} {
+					if from == to {
+						continue
+					}
+					from, to := from, to
+					ops = append(ops, op{name: "Set" + to + "From" + from, run: func(e *env) error {
+						var src proto.Message
+						if from == "A" {
+							src, _ = a.Get(id(e))
+						} else {
+							src = vals[from].Get()
+						}
+						if !validMsg(src) {
+							return nil
+						}
+						e.out("read"+from, src) // the caller holds it from a read ...
+						var res proto.Message
+						var err error
+						if to == "A" { // ... and hands it to a write on the other resource
+							res, err = a.Update(id(e), src, append(wopts(e), resource.WithCreateIfAbsent())...)
+						} else {
+							res, err = vals[to].Set(src, wopts(e)...)
+						}
+						e.out("result", res)
+						return err
+					}})
+				}
+			}
+			ops = append(ops,
+				op{name: "UpdateA", run: func(e *env) error {
+					m, _ := written(e, mkTat)
+					res, err := a.Update(id(e), m, append(wopts(e), resource.WithCreateIfAbsent())...)
+					e.out("result", res)
+					return err
+				}},
+				op{name: "SetC", run: func(e *env) error {
+					m, _ := written(e, mkTat)
+					res, err := c.Set(m, wopts(e)...)
+					e.out("result", res)
+					return err
+				}},
+				op{name: "ListA", ro: true, run: func(e *env) error { outList(e, "element", a.List(tatReadOpts(e)...)); return nil }},
+				op{name: "GetB", ro: true, run: func(e *env) error { e.out("result", b.Get(tatReadOpts(e)...)); return nil }},
+				op{name: "PullA", ro: true, run: func(e *env) error {
+					o := tatPullOpts(e)
+					return subscribe(e, "event", func(ctx context.Context) any { return a.Pull(ctx, o...) })
+				}},
+				op{name: "PullB", ro: true, run: func(e *env) error {
+					o := tatPullOpts(e)
+					return subscribe(e, "event", func(ctx context.Context) any { return b.Pull(ctx, o...) })
+				}},
+				cancelOp("PullA"))
+			return &instance{ops: ops, state: func() []proto.Message {
+				return append(a.List(), b.Get(), c.Get())
+			}}
 		}})
 }
